@@ -121,6 +121,20 @@ fn lib3(s: &str) -> &'static str {
     }
 }
 
+/// CLI name of the version `valid::make_valid(kind, variant)` writes (to convert back to).
+fn source_version(kind: &str, variant: u32) -> &'static str {
+    match kind {
+        "m2" => ["wotlk", "vanilla", "tbc", "cataclysm", "mop"][variant as usize % 5],
+        "skin" => ["wotlk", "cataclysm", "cataclysm"][variant as usize % 3],
+        "anim" => ["legion", "legion", "wotlk"][variant as usize % 3],
+        "wmo_root" => ["classic", "mop", "wotlk"][variant as usize % 3],
+        "adt" => ["classic", "tbc", "wotlk", "cataclysm", "mop"][variant as usize % 5],
+        "wdt" => "WotLK",
+        "wdl" => ["wotlk", "vanilla", "wotlk", "legion"][variant as usize % 4],
+        _ => "",
+    }
+}
+
 fn s(x: &str) -> String {
     x.to_string()
 }
@@ -133,11 +147,30 @@ fn run_event(
     case: &str, fam: &str, cmd: &str, kind: &str, input: &str, lib: &str, libval: &str, missing: bool, skip: bool, opt: i64,
     r: &RunOut, want: &[(String, String)], got: &[(String, String)], outs: &[String], need_outs: bool, view: &[String], libview: &[String],
 ) -> Value {
+    run_event_rt(case, fam, cmd, kind, input, lib, libval, missing, skip, opt, r, want, got, outs, need_outs, view, libview, &Rt::default())
+}
+
+/// Round-trip observation of a conversion A -> B -> A': tokens of the parsed A and A' ("" = not applicable / not parseable).
+#[derive(Default)]
+struct Rt {
+    dir: String,      // e.g. "wotlk>cataclysm>wotlk"
+    back_exit: i64,   // exit status of the conversion back (-9 = not run)
+    tok_in: String,
+    tok_back: String,
+}
+
+#[allow(clippy::too_many_arguments)]
+fn run_event_rt(
+    case: &str, fam: &str, cmd: &str, kind: &str, input: &str, lib: &str, libval: &str, missing: bool, skip: bool, opt: i64,
+    r: &RunOut, want: &[(String, String)], got: &[(String, String)], outs: &[String], need_outs: bool, view: &[String], libview: &[String],
+    rt: &Rt,
+) -> Value {
     let pair = |v: &[(String, String)]| Value::Array(v.iter().map(|(a, b)| json!([a, b])).collect());
     let tail: String = r.stderr.lines().rev().find(|l| l.contains("Error") || l.contains("panicked")).map(normalise_digits).unwrap_or_default();
     json!({"ev":"Run","case":case,"fam":fam,"cmd":cmd,"kind":kind,"input":input,"lib":lib,"libval":libval,"missing":missing,"skip":skip,
         "opt":opt,"exit":r.exit,"says_fail":says_fail(cmd, r),"want":pair(want),"got":pair(got),"outs":outs,"need_outs":need_outs,
-        "view":view,"libview":libview,"err":tail,"stdout_tok":tok(r.stdout.as_bytes())})
+        "view":view,"libview":libview,"err":tail,"stdout_tok":tok(r.stdout.as_bytes()),
+        "rt_dir":rt.dir,"rt_back_exit":if rt.dir.is_empty() { -9 } else { rt.back_exit },"rt_in":rt.tok_in,"rt_back":rt.tok_back})
 }
 
 // --------------------------------------------------------------------------------------------------
@@ -332,18 +365,47 @@ fn fmt_case(cli: &Path, dir: &Path, c: &Value, seed: u64) -> Vec<Value> {
         }
     }
     let need = !outs_paths.is_empty();
-    vec![reset, run_event(&id, fam, cmd, kind, input, &lib, &libval, false, false, opt, &r, &[], &[], &outs, need, &[], &[])]
+    // conversions of valid input: convert the result back to the source version and compare the parsed objects' tokens
+    let mut rt = Rt::default();
+    let convert = matches!(cmd, "convert" | "skin-convert" | "anim-convert") && kind != "blp";
+    if convert && input == "valid" && r.exit == 0 && outs == [s("ok")] {
+        let target = a.last().cloned().unwrap_or_default();
+        let src = source_version(kind, variant);
+        let back = dir.join(format!("back.{ext}"));
+        let mut b: Vec<String> = vec![s(fam), s(cmd), p(&outs_paths[0].0), p(&back)];
+        match fam {
+            "adt" | "wdl" => b.extend([s("--to"), s(src)]),
+            "wdt" => b.extend([s("--from-version"), target.clone(), s("--to-version"), s(src)]),
+            _ => b.extend([s("--version"), s(src)]),
+        }
+        let r2 = run_cli(cli, dir, &b);
+        rt.dir = format!("{}>{}>{}", src.to_lowercase(), target.to_lowercase(), src.to_lowercase());
+        rt.back_exit = r2.exit;
+        rt.tok_in = lib_token(kind, &file);
+        if r2.exit == 0 {
+            rt.tok_back = lib_token(kind, &back);
+        }
+    }
+    vec![reset, run_event_rt(&id, fam, cmd, kind, input, &lib, &libval, false, false, opt, &r, &[], &[], &outs, need, &[], &[], &rt)]
 }
 
 // --------------------------------------------------------------------------------------------------
 // mpq
 // --------------------------------------------------------------------------------------------------
+/// Upper bound of pipeline / archive member sizes: `VERIF_C20_MAXFILE` (default 4000 = below one 16 KB sector even when stored
+/// raw, so that C01's findings on multi-sector files do not resurface here; lift it, e.g. to 100000, once they are fixed).
+fn max_file() -> u64 {
+    std::env::var("VERIF_C20_MAXFILE").ok().and_then(|v| v.trim().parse::<u64>().ok()).filter(|v| *v >= 64).unwrap_or(4000)
+}
+
 fn content(rng: &mut Rng, i: usize) -> Vec<u8> {
+    let m = max_file();
     match i % 4 {
-        0 => gen_content("text", 200 + rng.below(3000) as usize, rng),
-        1 => gen_content("random", 1 + rng.below(2000) as usize, rng),
+        0 => gen_content("text", (m / 20 + rng.below(m * 3 / 4)) as usize, rng),
+        // with a lifted limit the incompressible member spans several sectors and is stored raw
+        1 => gen_content("random", if m > 20000 { (m / 2 + rng.below(m / 2)) as usize } else { 1 + rng.below(m / 2) as usize }, rng),
         2 => Vec::new(),
-        _ => gen_content("mixed", 64 + rng.below(3500) as usize, rng),
+        _ => gen_content("mixed", (64 + rng.below(m * 7 / 8)) as usize, rng),
     }
 }
 
@@ -412,7 +474,7 @@ fn mpq1_case(cli: &Path, dir: &Path, c: &Value, seed: u64) -> Vec<Value> {
     let nfiles = 2 + (variant as usize % 4);
     let mut b = ArchiveBuilder::new().version(if variant % 2 == 0 { FormatVersion::V1 } else { FormatVersion::V2 });
     for (i, n) in names.iter().take(nfiles).enumerate() {
-        let data = if i == 0 { gen_content("text", 1500 + rng.below(1500) as usize, &mut rng) } else { content(&mut rng, i) };
+        let data = if i == 0 { gen_content("text", (max_file() * 3 / 8 + rng.below(max_file() * 3 / 8)) as usize, &mut rng) } else { content(&mut rng, i) };
         b = b.add_file_data(data, n);
     }
     if let Err(e) = b.build(&arch) {
@@ -726,6 +788,53 @@ fn worker(kind: &str, file: &str, tmp: &str) -> ! {
     std::process::exit(0);
 }
 
+/// Token (digest of the Debug rendering) of the object the library parses from a file, or "" if it does not parse.
+/// Runs in the worker child (`c20 token <kind> <file>`).
+fn token_worker(kind: &str, file: &str) -> ! {
+    install_quiet_panic_hook();
+    let p = PathBuf::from(file);
+    let open = |p: &Path| std::fs::File::open(p).map(std::io::BufReader::new);
+    let t: Option<String> = match guarded(|| -> Option<String> {
+        match kind {
+            "m2" => wow_m2::M2Model::load(&p).ok().map(|m| format!("{m:#?}")),
+            "skin" => wow_m2::SkinFile::load(&p).ok().map(|m| format!("{m:#?}")),
+            "anim" => wow_m2::AnimFile::load(&p).ok().map(|m| format!("{m:#?}")),
+            "wmo_root" | "wmo_group" => open(&p).ok().and_then(|mut r| wow_wmo::parse_wmo_with_metadata(&mut r).ok()).map(|m| format!("{m:#?}")),
+            "adt" => open(&p).ok().and_then(|mut r| wow_adt::parse_adt_with_metadata(&mut r).ok()).map(|(a, _)| format!("{a:#?}")),
+            "wdt" => open(&p).ok().and_then(|r| wow_wdt::WdtReader::new(r, wow_wdt::version::WowVersion::WotLK).read().ok()).map(|m| format!("{m:#?}")),
+            "wdl" => open(&p).ok().and_then(|mut r| wow_wdl::parser::WdlParser::new().parse(&mut r).ok()).map(|m| format!("{m:#?}")),
+            _ => None,
+        }
+    }) {
+        Outcome::Done(v) => v,
+        _ => None,
+    };
+    if let (Ok(d), Some(text)) = (std::env::var("C20_DUMP"), &t) {
+        let _ = std::fs::write(d, text);
+    }
+    // several parsed types hold HashMaps (iteration order varies per process): the token is the digest of the SORTED lines of the
+    // pretty Debug rendering, i.e. of the multiset of rendered fields
+    println!(
+        "TOKEN {}",
+        t.map(|x| {
+            let mut l: Vec<&str> = x.lines().collect();
+            l.sort_unstable();
+            tok(l.join("\n").as_bytes())
+        })
+        .unwrap_or_default()
+    );
+    std::process::exit(0);
+}
+
+fn lib_token(kind: &str, file: &Path) -> String {
+    let exe = std::env::current_exe().unwrap_or_else(|e| tool_error(&format!("current_exe: {e}")));
+    let out = Command::new(exe).args(["token", kind, &p(file)]).stdin(Stdio::null()).stderr(Stdio::null()).output();
+    match out {
+        Ok(o) => String::from_utf8_lossy(&o.stdout).lines().find_map(|l| l.strip_prefix("TOKEN ").map(|t| t.trim().to_string())).unwrap_or_default(),
+        Err(_) => String::new(),
+    }
+}
+
 /// (lib, validate status, count) for a file, via the worker child.
 fn lib_verdicts(kind: &str, file: &Path, tmp: &Path) -> (String, String, i64) {
     let exe = std::env::current_exe().unwrap_or_else(|e| tool_error(&format!("current_exe: {e}")));
@@ -751,6 +860,9 @@ fn main() {
     let raw: Vec<String> = std::env::args().collect();
     if raw.len() == 5 && raw[1] == "worker" {
         worker(&raw[2], &raw[3], &raw[4]);
+    }
+    if raw.len() == 4 && raw[1] == "token" {
+        token_worker(&raw[2], &raw[3]);
     }
     let a = args();
     install_quiet_panic_hook();
